@@ -3,7 +3,7 @@ Writes seeded/MATRIX.json and prints a table.  Never touches /repo."""
 import json, os, shutil, subprocess, sys, tempfile, glob
 from concurrent.futures import ThreadPoolExecutor
 HERE = os.path.dirname(os.path.dirname(os.path.abspath(__file__)))
-PIDS = ['C%02d' % i for i in range(1, 21) if i != 15]
+PIDS = ['C%02d' % i for i in range(1, 21)]
 
 def one(seed_dir):
     name = os.path.basename(seed_dir)
